@@ -78,22 +78,23 @@ type RunStats struct {
 }
 
 type Obs struct {
-	ID         string    `json:"id"`
-	Prop       string    `json:"prop"`
-	Class      string    `json:"class,omitempty"`
-	Invalid    string    `json:"invalid,omitempty"`
-	Verdicts   []Verdict `json:"verdicts,omitempty"`
-	FP         string    `json:"fp,omitempty"`
-	Decisions  []int64   `json:"decisions,omitempty"`
-	Resolved   *Case     `json:"resolved,omitempty"`
-	NonTrivial bool      `json:"nontrivial"`
-	Tags       []string  `json:"tags,omitempty"`
-	Stats      RunStats  `json:"stats"`
-	Fired      [8]int    `json:"fired"`
-	Outcome    string    `json:"outcome,omitempty"`
-	OutErr     string    `json:"outerr,omitempty"`
-	Log        []string  `json:"log,omitempty"`
-	Policy     string    `json:"policy,omitempty"`
+	ID            string    `json:"id"`
+	Prop          string    `json:"prop"`
+	Class         string    `json:"class,omitempty"`
+	Invalid       string    `json:"invalid,omitempty"`
+	Verdicts      []Verdict `json:"verdicts,omitempty"`
+	FP            string    `json:"fp,omitempty"`
+	Decisions     []int64   `json:"decisions,omitempty"`
+	TestDecisions []int64   `json:"-"`
+	Resolved      *Case     `json:"resolved,omitempty"`
+	NonTrivial    bool      `json:"nontrivial"`
+	Tags          []string  `json:"tags,omitempty"`
+	Stats         RunStats  `json:"stats"`
+	Fired         [8]int    `json:"fired"`
+	Outcome       string    `json:"outcome,omitempty"`
+	OutErr        string    `json:"outerr,omitempty"`
+	Log           []string  `json:"log,omitempty"`
+	Policy        string    `json:"policy,omitempty"`
 }
 
 func (o *Obs) add(run, sig, detail string) {
@@ -233,7 +234,16 @@ func exec(c *Case) *Obs {
 	return o
 }
 
+// resolveLike copies the resolved simulation parameters (absolute stalls, PCT length) of a
+// case that has been executed
+func (c *Case) resolveLike(done *Case) {
+	c.Sim = done.Sim
+	c.Sim.Decisions = nil
+	c.StallF = nil
+}
+
 func (o *Obs) finishTest(c *Case, r *RunOut) {
+	o.TestDecisions = r.Res.Decisions
 	if oc := clientOutcome(r); oc.Done && !oc.Ok {
 		o.OutErr = trunc(oc.Err, 400)
 	}
